@@ -503,14 +503,17 @@ let handle (fields : string list) : string * string =
     let route = Model.pick_route m vals in
     let ch l = match l with [] -> "-" | _ -> String.concat "," (List.map hex_of_bytes l) in
     let mo = (match Model.dispatch m vals bas bk with
-        | Handler _ -> if meth = "RDG_OUT_DATA" then "st=101 ch=-" else "st=200 ch=-"
+        | Handler _ ->
+          (* the handler upgrades RDG_OUT_DATA, refuses an RDG_IN_DATA that has no outbound channel (400), ignores other methods *)
+          if meth = "RDG_OUT_DATA" then "st=101 ch=-" else if meth = "RDG_IN_DATA" then "st=400 ch=-" else "st=200 ch=-"
         | Status (c, l) -> Printf.sprintf "st=%d ch=%s" (int_of_n c) (ch l)
         | NotFound -> "st=404 ch=-") in
     (* the SPNEGO library's exact refusal is not modelled: any refusal status is accepted on that route *)
     let refused = List.exists (fun p -> String.length impl >= String.length p && String.sub impl 0 (String.length p) = p)
         ["st=400"; "st=401"; "st=403"; "st=500"] in
     let mo = if route = RKerberos && refused then impl else mo in
-    let reached = String.length impl >= 6 && (String.sub impl 0 6 = "st=101" || String.sub impl 0 6 = "st=200") in
+    let reached = String.length impl >= 6 && (String.sub impl 0 6 = "st=101" || String.sub impl 0 6 = "st=200"
+                                              || (meth = "RDG_IN_DATA" && String.sub impl 0 6 = "st=400")) in
     let openid_only = m.m_openid && not m.m_kerberos && not m.m_local && not m.m_ntlm in
     let to_b str = List.map (fun c -> byte_of_int (Char.code c)) (List.of_seq (String.to_seq str)) in
     let shadowed = m.m_ntlm && valid = "basic" &&
@@ -520,6 +523,52 @@ let handle (fields : string list) : string * string =
          else if mo = impl then "ok"
          else if reached then "fail:handler-reached-without-confirmed-credentials"
          else "fail:http-auth-differs")
+  | "tunnel" :: bits :: _transport :: user :: own :: items :: impl :: [] ->
+    (* one tunnel of a concurrent run, compared with its own solo run: projected observation *)
+    let cfg = parse_cfg bits "0000000" "0" in
+    let own_h = bytes_of_hex own in
+    let pol h = (h = own_h) in
+    let items = Model.resolve_policy_dials pol [own_h] cfg Model.tstate0 (parse_items items @ [RErr]) in
+    let evs = Model.run cfg items in
+    let rs = List.filter_map (function Resp (ty, st, _) -> Some (Printf.sprintf "%d:%d" (int_of_n ty) (int_of_n st)) | _ -> None) evs in
+    let cs = List.filter_map (function
+        | AskCookie (c, ok) -> Some (Printf.sprintf "AC:%s:%s" (hex_of_bytes c) (b01 ok))
+        | AskHost (h, ok) -> Some (Printf.sprintf "AH:%s:%s:u=%s" (hex_of_bytes h) (b01 ok) user)
+        | _ -> None) evs in
+    let dials = List.length (List.filter (function Dial (_, true) -> true | _ -> false) evs) in
+    let host = List.concat (List.filter_map (function ToHost b -> Some b | _ -> None) evs) in
+    (* the read error appended above stands for the client closing at the end of its script: the
+       server ended the stream first iff the run ended before that last item *)
+    let consumed = int_of_nat (Model.consumed cfg items) in
+    let closed = consumed < List.length items in
+    let j l = match l with [] -> "-" | _ -> String.concat "," l in
+    let m = Printf.sprintf "R=%s C=%s D=%d H=%s B=ok X=%s Z=0" (j rs) (j cs) dials (hex_of_bytes host) (b01 closed) in
+    (m, if m = impl then "ok"
+        else begin
+          let field k s = List.find_opt (fun t -> String.length t > String.length k && String.sub t 0 (String.length k) = k) (split_on ' ' s) in
+          if field "B=" impl <> Some "B=ok" then "fail:bytes-of-another-tunnel-or-malformed-data"
+          else if field "H=" impl <> field "H=" m then "fail:host-received-other-bytes"
+          else if field "Z=" impl <> Some "Z=0" then "fail:answered-after-end"
+          else "fail:tunnel-differs-from-solo-run"
+        end)
+  | "pairing" :: same :: impl :: [] ->
+    let c = parse_cfg "10101" "0000000" "0" in
+    let one = n_of_int 1 and two = n_of_int 2 in
+    let inid = if same = "1" then one else two in
+    let tr = Model.grun c [] [GOpenOut one; GOpenIn inid] in
+    let m = (match List.rev tr with (_, GAccepted) :: _ -> "answered-on-out" | _ -> "in-refused") in
+    (m, if m = impl then "ok" else if impl = "answered-on-out" then "fail:paired-across-connection-ids" else "fail:pairing")
+  | "raceprobe" :: what :: _n :: impl :: [] ->
+    (* runtime half of C09: the theorem says a program that follows the locking discipline has no race; the
+       race detector and the clients' frame checks are the observation of the real schedules *)
+    let m = (match what with
+        | "frame-integrity" -> "frames-intact"
+        | "race-detector" -> "no-race-reported"
+        | _ -> "none") in
+    (m, if m = impl then "ok"
+        else if String.length impl >= 5 && String.sub impl 0 5 = "race:" then "fail:" ^ impl
+        else "fail:" ^ impl)
+  | "crash" :: what :: _impl :: [] -> ("still-serving", "fail:process-aborted-" ^ what)
   | k :: _ -> failwith ("unknown kind " ^ k)
   | [] -> failwith "empty line"
 
